@@ -93,6 +93,11 @@ func genCase(t *rapid.T) Case {
 		if i == 0 {
 			k = 0
 		}
+		// a server restarts between two requests (same address, same data): the other nodes are left
+		// with a dead cached connection to it
+		if i > 0 && c.Nodes > 1 && rapid.IntRange(0, 7).Draw(t, fmt.Sprintf("restart%d", i)) == 0 {
+			c.Steps = append(c.Steps, Step{Kind: "restart", Via: rapid.IntRange(0, c.Nodes-1).Draw(t, fmt.Sprintf("restartNode%d", i)), Down: -1})
+		}
 		switch {
 		case k <= 3:
 			st.Kind = "insert"
@@ -247,8 +252,9 @@ func execCase(c Case) (res vt.Result) {
 		e.specs = append(e.specs, drive.NodeSpec{Host: host, Port: drive.FreePort(host)})
 		e.servers = append(e.servers, e.specs[k].Name())
 	}
+	nodeOpts := drive.ClusterOpts{MaxShardPointCount: c.MaxShardPointCount, ShardTimeout: 2, RpcTimeout: 5, RpcRetries: 1}
 	for k := 0; k < c.Nodes; k++ {
-		n, err := drive.NewClusterNode(filepath.Join(dir, fmt.Sprintf("node%d", k)), e.specs[k], e.servers, drive.ClusterOpts{MaxShardPointCount: c.MaxShardPointCount, ShardTimeout: 2, RpcTimeout: 5, RpcRetries: 1}, c.Nodes > 1)
+		n, err := drive.NewClusterNode(filepath.Join(dir, fmt.Sprintf("node%d", k)), e.specs[k], e.servers, nodeOpts, c.Nodes > 1)
 		if err != nil {
 			return vt.Result{Err: fmt.Errorf("node %d: %v", k, err)}
 		}
@@ -270,6 +276,21 @@ func execCase(c Case) (res vt.Result) {
 		fail := func(f string, a ...any) vt.Result {
 			res.Err = fmt.Errorf("step %d (%s via node %d, node down: %d): %s", i, st.Kind, st.Via, st.Down, fmt.Sprintf(f, a...))
 			return res
+		}
+		if st.Kind == "restart" {
+			if c.Nodes < 2 || st.Via >= len(e.nodes) {
+				continue
+			}
+			if err := drive.StopClusterNode(e.nodes[st.Via], e.specs[st.Via]); err != nil {
+				return fail("closing the node: %v", err)
+			}
+			n, err := drive.NewClusterNode(filepath.Join(dir, fmt.Sprintf("node%d", st.Via)), e.specs[st.Via], e.servers, nodeOpts, true)
+			if err != nil {
+				return fail("restarting the node: %v", err)
+			}
+			e.nodes[st.Via] = n
+			rec.Count("server_restarts", 1)
+			continue
 		}
 		col, err := e.collection(st.Via)
 		if err != nil {
